@@ -2436,7 +2436,9 @@ func c01StrictDecoderNulls(ctx *Ctx, r *Report) {
 			// only the leaf branch (no nested chain holding the call)
 			nested := false
 			walkTmpl(br.body, func(q parse.Node) bool {
-				if i2, ok := q.(*parse.IfNode); ok && i2 != in && strings.Contains(tmplText(i2.List), ".UnmarshalJSONStrict(") {
+				// (a two-way choice inside the branch — which struct to allocate — is part of the leaf; a dispatch has
+				// more branches)
+				if i2, ok := q.(*parse.IfNode); ok && i2 != in && strings.Contains(tmplText(i2.List), ".UnmarshalJSONStrict(") && len(ifChain(i2)) >= 3 {
 					nested = true
 				}
 				return true
